@@ -270,16 +270,6 @@ impl<'a, R: RealNumberInternalTrait> Interpreter<'a, R> {
         mut args: ArgVec<R>,
         env: &Rc<Environment<R>>,
     ) -> Result<Value<R>> {
-        let formals = initial_procedure.get_parameters();
-        // let args = args.into_iter();
-        // formals.iter_to_last(|formal| args.next)
-        let (fixed_len, has_variadic) = formals.len();
-        if args.len() < fixed_len || (args.len() > fixed_len && !has_variadic) {
-            return error!(LogicError::ArgumentMissMatch(
-                formals.clone(),
-                args.iter().join(" ")
-            ));
-        }
         let mut current_procedure = None;
         loop {
             #[cfg(ruschm_verif)]
@@ -288,11 +278,21 @@ impl<'a, R: RealNumberInternalTrait> Interpreter<'a, R> {
                     crate::verif::FUEL_MESSAGE.to_string()
                 ));
             }
-            match if current_procedure.is_none() {
+            let procedure = if current_procedure.is_none() {
                 initial_procedure
             } else {
                 current_procedure.as_ref().unwrap()
-            } {
+            };
+            // every procedure entered by the trampoline gets its argument count checked
+            let formals = procedure.get_parameters();
+            let (fixed_len, has_variadic) = formals.len();
+            if args.len() < fixed_len || (args.len() > fixed_len && !has_variadic) {
+                return error!(LogicError::ArgumentMissMatch(
+                    formals.clone(),
+                    args.iter().join(" ")
+                ));
+            }
+            match procedure {
                 Procedure::Builtin(BuiltinProcedure { body, .. }) => {
                     break body.apply(args, env);
                 }
